@@ -27,7 +27,7 @@ var (
 	svcAtoms      = []int64{1, 2, 3, 4}
 	ownerAtoms    = []int64{101, 102, 103}
 	consumerAtoms = []int64{111, 112, 113}
-	providerAtoms = []int64{121, 122, 123, 124, 125, 126, 127, 101}
+	providerAtoms = []int64{121, 122, 123, 124, 125, 126, 127, 101, 102}
 	wdAtoms       = []int64{131, 132}
 	strangerAtom  = int64(141)
 )
@@ -121,7 +121,7 @@ func (g *Gen) freshTx() uint64 {
 	}
 }
 
-var prices = []string{"0", "0.5", "1", "2", "10", "1000", "0.999999999999999999", "3.7"}
+var prices = []string{"0", "0.5", "1", "2", "10", "1000", "0.999999999999999999", "3.7", "5", "7", "15", "33"}
 var discounts = []string{"0.5", "0.1", "0.9", "0.000000000000000001", "0.999999999999999999", "0.3", "0.25"}
 
 func (g *Gen) pricing() PricingArg {
@@ -357,6 +357,11 @@ func (g *Gen) next() *Op {
 		}
 		if ow, ok := s.Owners[string(a.addr(o.Prov))]; ok && g.chance(0.85) {
 			o.Owner = a.atomOfAddr([]byte(ow))
+		}
+		// an account that is both an owner and a provider: let it (try to) bind itself, also when
+		// somebody else owns it already
+		if (o.Prov == 101 || o.Prov == 102) && g.chance(0.4) {
+			o.Owner = o.Prov
 		}
 		if g.chance(0.04) {
 			o.QoS = uint64(r.cfg.MaxTimeout + 1)
